@@ -2,14 +2,17 @@
    Only statements; models are SV.Cache (lookups, Job.init, _StatePointDict.load) and SV.Repair (check, repair),
    proofs are in SV.C09Proofs.  The library oracles are Section variables of the models:
      frepr   : float.__repr__
-     loads_s : bytes.decode() + json.loads(str)   (Project._get_statepoint_from_workspace: check, repair's lookup)
-     loads_b : json.loads(bytes)                  (_StatePointDict.load: open by id, Job.init)
+     loads_s : bytes.decode() + json.loads(str)   (Project._get_statepoint_from_workspace: check, repair's lookup);
+               None = UNDECODABLE: the decoder raised a ValueError (JSON or unicode) or — nested beyond the
+               recursion limit — a RecursionError (reported like any undecodable text since fix: 178057f)
+     loads_b : json.loads(bytes)                  (_StatePointDict.load: open by id, Job.init); outcomes DVal /
+               DJsonErr / DRecErr (both reported as JobsCorruptedError) / DOtherErr (UnicodeDecodeError escapes)
    The repair theorems assume only that both decoders invert the file printer (loads (dumps v) = v) and that
    a value produced by the bytes decoder is also produced by the text decoder. *)
 From SV Require Import Base Json MD5 Canon FS Ws Cache CacheLemmas Repair CorrC08 CorrC09 C08Proofs C09Proofs.
 
 (* ---------------------------------------------------------------- check_exact
-   check() reports exactly the listed directories whose file is missing, undecodable, or decodes to a value
+   check() reports exactly the listed directories whose file is missing, undecodable (incl. nested too deeply), or decodes to a value
    whose canonical hash differs from the directory name (valid f i = false), in listing order; it passes iff
    there is none.  Precondition: the listed names are directories. *)
 Theorem C09_check_exact : forall frepr loads_s f ids,
